@@ -14,6 +14,7 @@ Leg G (specs/ConfigCheck.tla): the Go driver builds the real risor.Config for ea
 A MISMATCH is re-executed (fresh driver process + TLC) before it is reported as a violation.
 """
 import json
+import os
 import random
 import re
 import threading
@@ -190,6 +191,7 @@ def describe(case):
 
 
 def run(cx):
+    os.environ["VERIF_CONFIG_NAMES"] = os.path.join(vlib.VERIF, "specs", "ConfigNames.json")
     cx.level = "model_checking"
     drv = cx.go_build("config")
     g0 = cx.path("g0.json")
